@@ -1,15 +1,450 @@
-//! C03 harness (stub).
+//! C03: sketch operations mirror set operations on the underlying data.
+//!
+//! Registers hold real `KmerMinHash` / `KmerMinHashBTree` values; every op line calls the real
+//! method and prints the observable result.  See lean/Driver/C03.lean for the model/spec side.
+use sourmash::encodings::HashFunctions;
+use sourmash::sketch::minhash::{max_hash_for_scaled, KmerMinHash, KmerMinHashBTree};
+use std::collections::BTreeMap;
 use verif_harness::*;
 
-fn gen(_a: &Args) {
-    let mut o = Out::new();
-    o.case("stub");
+#[derive(Clone)]
+enum Reg {
+    V(KmerMinHash),
+    T(KmerMinHashBTree),
 }
 
-fn step(_: &mut (), ws: &[&str]) -> String {
+fn mol(s: &str) -> HashFunctions {
+    match s {
+        "protein" => HashFunctions::Murmur64Protein,
+        "dayhoff" => HashFunctions::Murmur64Dayhoff,
+        "hp" => HashFunctions::Murmur64Hp,
+        _ => HashFunctions::Murmur64Dna,
+    }
+}
+
+fn obs(r: &Reg) -> String {
+    let (m, a) = match r {
+        Reg::V(x) => (x.mins(), x.abunds()),
+        Reg::T(x) => (x.mins(), x.abunds()),
+    };
+    format!(
+        "mins={} abunds={}",
+        show_nats(m),
+        match a {
+            Some(a) => show_nats(a),
+            None => "none".into(),
+        }
+    )
+}
+
+fn parse_pairs(s: &str) -> Vec<(u64, u64)> {
+    if s == "-" || s.is_empty() {
+        return vec![];
+    }
+    s.split(',')
+        .map(|w| {
+            let mut it = w.split(':');
+            let h = it.next().unwrap().parse().unwrap();
+            let a = it.next().map(|x| x.parse().unwrap()).unwrap_or(1);
+            (h, a)
+        })
+        .collect()
+}
+
+struct St {
+    tree: bool,
+    regs: BTreeMap<u64, Reg>,
+}
+
+fn err<E: std::fmt::Debug>(e: E) -> String {
+    let s = format!("{:?}", e);
+    // variant name only
+    let name: String = s.chars().take_while(|c| c.is_alphanumeric()).collect();
+    format!("err {}", name)
+}
+
+fn step(st: &mut St, ws: &[&str]) -> String {
+    let n = |i: usize| -> u64 { ws[i].parse().unwrap() };
     match ws[0] {
-        "case" => "ok".into(),
+        "case" => {
+            st.tree = ws.get(2) == Some(&"tree");
+            st.regs.clear();
+            "ok".into()
+        }
+        "new" => {
+            // new R scaled num ksize mol seed track
+            let (scaled, num, ksize, seed, track) = (n(2), n(3) as u32, n(4) as u32, n(6), ws[7] == "1");
+            let r = if st.tree {
+                Reg::T(KmerMinHashBTree::new(scaled, ksize, mol(ws[5]), seed, track, num))
+            } else {
+                Reg::V(KmerMinHash::new(scaled, ksize, mol(ws[5]), seed, track, num))
+            };
+            st.regs.insert(n(1), r);
+            "ok".into()
+        }
+        "copy" => {
+            let b = st.regs[&n(2)].clone();
+            st.regs.insert(n(1), b);
+            "ok".into()
+        }
+        "obs" => obs(&st.regs[&n(1)]),
+        "add" => {
+            let ps = parse_pairs(ws[2]);
+            let r = st.regs.get_mut(&n(1)).unwrap();
+            match r {
+                Reg::V(x) => x.add_many_with_abund(&ps).unwrap(),
+                Reg::T(x) => x.add_many_with_abund(&ps).unwrap(),
+            }
+            obs(r)
+        }
+        "addm" => {
+            let hs = parse_nats(ws[2]);
+            let r = st.regs.get_mut(&n(1)).unwrap();
+            match r {
+                Reg::V(x) => x.add_many(&hs).unwrap(),
+                Reg::T(x) => x.add_many(&hs).unwrap(),
+            }
+            obs(r)
+        }
+        "rmmany" => {
+            let hs = parse_nats(ws[2]);
+            let r = st.regs.get_mut(&n(1)).unwrap();
+            match r {
+                Reg::V(x) => x.remove_many(hs).unwrap(),
+                Reg::T(x) => x.remove_many(hs).unwrap(),
+            }
+            obs(r)
+        }
+        "merge" | "addfrom" | "rmfrom" | "inflate" => {
+            let b = st.regs[&n(2)].clone();
+            let r = st.regs.get_mut(&n(1)).unwrap();
+            let res = match (ws[0], &mut *r, &b) {
+                ("merge", Reg::V(x), Reg::V(y)) => x.merge(y),
+                ("merge", Reg::T(x), Reg::T(y)) => x.merge(y),
+                ("addfrom", Reg::V(x), Reg::V(y)) => x.add_from(y),
+                ("addfrom", Reg::T(x), Reg::T(y)) => x.add_from(y),
+                ("rmfrom", Reg::V(x), Reg::V(y)) => x.remove_from(y),
+                // the tree type has no remove_from; remove_many over the other's hashes is its spelling
+                ("rmfrom", Reg::T(x), Reg::T(y)) => x.remove_many(y.mins()),
+                ("inflate", Reg::V(x), Reg::V(y)) => x.inflate(y),
+                _ => return "bad-op".into(),
+            };
+            match res {
+                Ok(()) => obs(r),
+                Err(e) => err(e),
+            }
+        }
+        "isect" => {
+            let res = match (&st.regs[&n(1)], &st.regs[&n(2)]) {
+                (Reg::V(x), Reg::V(y)) => x.intersection(y),
+                (Reg::T(x), Reg::T(y)) => x.intersection(y),
+                _ => return "bad-op".into(),
+            };
+            match res {
+                Ok((c, u)) => format!("common={} union={}", show_nats(c), u),
+                Err(e) => err(e),
+            }
+        }
+        "isize" => {
+            let res = match (&st.regs[&n(1)], &st.regs[&n(2)]) {
+                (Reg::V(x), Reg::V(y)) => x.intersection_size(y),
+                (Reg::T(x), Reg::T(y)) => x.intersection_size(y),
+                _ => return "bad-op".into(),
+            };
+            match res {
+                Ok((c, u)) => format!("common={} union={}", c, u),
+                Err(e) => err(e),
+            }
+        }
+        "infab" => {
+            let res = match (&st.regs[&n(1)], &st.regs[&n(2)]) {
+                (Reg::V(x), Reg::V(y)) => x.inflated_abundances(y),
+                _ => return "bad-op".into(),
+            };
+            match res {
+                Ok((l, t)) => format!("abunds={} total={}", show_nats(l), t),
+                Err(e) => err(e),
+            }
+        }
+        "cc" => {
+            let d = ws[3] == "1";
+            let res = match (&st.regs[&n(1)], &st.regs[&n(2)]) {
+                (Reg::V(x), Reg::V(y)) => x.count_common(y, d),
+                (Reg::T(x), Reg::T(y)) => x.count_common(y, d),
+                _ => return "bad-op".into(),
+            };
+            match res {
+                Ok(c) => format!("common={}", c),
+                Err(e) => err(e),
+            }
+        }
         _ => "bad-op".into(),
+    }
+}
+
+// ------------------------------------------------------------------------------------ generator
+
+#[derive(Clone)]
+struct Params {
+    scaled: u64,
+    num: u64,
+    ksize: u64,
+    mol: &'static str,
+    seed: u64,
+    track: bool,
+}
+impl Params {
+    fn line(&self, r: u64) -> String {
+        format!(
+            "new {} {} {} {} {} {} {}",
+            r, self.scaled, self.num, self.ksize, self.mol, self.seed, self.track as u8
+        )
+    }
+}
+
+/// a small universe of hashes: tiny values, values around the ceiling, the top of the u64 range
+fn universe(r: &mut Rng, scaled: u64) -> Vec<u64> {
+    let mut u: Vec<u64> = vec![];
+    let mh = max_hash_for_scaled(scaled);
+    let n = r.range(4, 14);
+    for _ in 0..n {
+        let v = match r.below(6) {
+            0 => r.below(12),
+            1 => r.bits(64),
+            2 if mh != 0 => mh - r.below(4).min(mh),
+            3 if mh != 0 => mh.saturating_add(r.below(3)),
+            4 => u64::MAX - r.below(3),
+            _ => r.range(1, 40),
+        };
+        if !u.contains(&v) {
+            u.push(v);
+        }
+    }
+    u
+}
+
+fn subset(r: &mut Rng, u: &[u64], p_num: u64, p_den: u64) -> Vec<u64> {
+    u.iter().cloned().filter(|_| r.chance(p_num, p_den)).collect()
+}
+
+/// a multiset of insertions over the key set `keys`: every key at least once, some repeated, shuffled
+fn items(r: &mut Rng, keys: &[u64], max_ab: u64) -> Vec<(u64, u64)> {
+    let mut v: Vec<(u64, u64)> = vec![];
+    for &k in keys {
+        let reps = if r.chance(1, 4) { r.range(2, 3) } else { 1 };
+        for _ in 0..reps {
+            v.push((k, r.range(1, max_ab)));
+        }
+    }
+    // Fisher-Yates
+    for i in (1..v.len()).rev() {
+        let j = r.below(i as u64 + 1) as usize;
+        v.swap(i, j);
+    }
+    v
+}
+
+fn show_items(v: &[(u64, u64)]) -> String {
+    if v.is_empty() {
+        "-".into()
+    } else {
+        v.iter().map(|(h, a)| format!("{}:{}", h, a)).collect::<Vec<_>>().join(",")
+    }
+}
+
+fn emit_add(o: &mut Out, r: &mut Rng, reg: u64, it: &[(u64, u64)]) {
+    if r.chance(1, 4) {
+        o.op(&format!("addm {} {}", reg, show_nats(it.iter().map(|p| p.0))));
+    } else {
+        o.op(&format!("add {} {}", reg, show_items(it)));
+    }
+}
+
+const REGIMES: [&str; 6] = ["disjoint", "nested", "superset", "overlap", "empty", "identical"];
+
+fn second_keys(r: &mut Rng, regime: &str, u: &[u64], a: &[u64]) -> Vec<u64> {
+    match regime {
+        "disjoint" => {
+            let rest: Vec<u64> = u.iter().cloned().filter(|x| !a.contains(x)).collect();
+            subset(r, &rest, 3, 4)
+        }
+        "nested" => subset(r, a, 1, 2),
+        "superset" => {
+            let mut b = a.to_vec();
+            for x in subset(r, u, 1, 2) {
+                if !b.contains(&x) {
+                    b.push(x);
+                }
+            }
+            b
+        }
+        "empty" => vec![],
+        "identical" => a.to_vec(),
+        _ => subset(r, u, 1, 2),
+    }
+}
+
+fn gen(a: &Args) {
+    let mut r = Rng::new(a.seed);
+    let mut o = Out::new();
+    let ncases = if a.cases > 0 {
+        a.cases
+    } else if a.tier == "thorough" {
+        60_000
+    } else {
+        3_000
+    };
+    let mols = ["dna", "protein", "dayhoff", "hp"];
+    for ci in 0..ncases {
+        let ty = if ci % 2 == 0 { "vec" } else { "tree" };
+        let kind = r.below(10);
+        // parameters of the first operand
+        let is_num = r.chance(1, 3);
+        let pa = Params {
+            scaled: if is_num { 0 } else { *r.pick(&[1u64, 2, 1000]) },
+            num: if is_num { *r.pick(&[1u64, 3, 8]) } else { 0 },
+            ksize: *r.pick(&[21u64, 31]),
+            mol: mols[r.below(4) as usize],
+            seed: *r.pick(&[42u64, 7]),
+            track: r.chance(1, 2),
+        };
+        let u = universe(&mut r, pa.scaled);
+        if kind == 0 {
+            // ---- abundance 0 insertions: the two types differ (vector removes, tree ignores); model only
+            o.case(&format!("{} nospec zero-abundance", ty));
+            o.op(&pa.line(0));
+            let ka = subset(&mut r, &u, 2, 3);
+            let it = items(&mut r, &ka, 4);
+            o.op(&format!("add 0 {}", show_items(&it)));
+            for _ in 0..r.range(1, 4) {
+                let h = *r.pick(&u);
+                o.op(&format!("add 0 {}:0", h));
+                if r.chance(1, 2) {
+                    o.op(&format!("add 0 {}:{}", h, r.range(1, 3)));
+                }
+            }
+            o.op("obs 0");
+            continue;
+        }
+        if kind == 1 {
+            // ---- incompatible pair: one or several parameters differ; every fallible entry point
+            let mut pb = pa.clone();
+            pb.track = r.chance(1, 2);
+            let mut diffs = vec![];
+            let first = r.below(4);
+            for f in 0..4u64 {
+                if f == first || r.chance(1, 4) {
+                    diffs.push(f);
+                }
+            }
+            for f in &diffs {
+                match f {
+                    0 => pb.ksize = if pa.ksize == 21 { 31 } else { 21 },
+                    1 => pb.mol = mols[((mols.iter().position(|m| *m == pa.mol).unwrap() as u64 + r.range(1, 3)) % 4) as usize],
+                    2 => {
+                        // max_hash differs: another scaled, or scaled vs num
+                        if is_num {
+                            pb.scaled = *r.pick(&[1u64, 2, 1000]);
+                            pb.num = 0;
+                        } else {
+                            let others: Vec<u64> = [1u64, 2, 1000, 0].iter().cloned().filter(|s| *s != pa.scaled).collect();
+                            pb.scaled = *r.pick(&others);
+                            pb.num = if pb.scaled == 0 { *r.pick(&[1u64, 3, 8]) } else { 0 };
+                        }
+                    }
+                    _ => pb.seed = if pa.seed == 42 { 7 } else { 42 },
+                }
+            }
+            o.case(&format!("{} incompatible {:?}", ty, diffs));
+            o.op(&pa.line(0));
+            o.op(&pb.line(1));
+            let ka = subset(&mut r, &u, 2, 3);
+            let kb = subset(&mut r, &u, 2, 3);
+            let (ia, ib) = (items(&mut r, &ka, 4), items(&mut r, &kb, 4));
+            emit_add(&mut o, &mut r, 0, &ia);
+            emit_add(&mut o, &mut r, 1, &ib);
+            let mut ops = vec!["merge 0 1", "merge 1 0", "isect 0 1", "isect 1 0", "isize 0 1", "isize 1 0", "cc 0 1 0", "cc 1 0 0"];
+            if ty == "vec" {
+                ops.extend(["inflate 0 1", "inflate 1 0", "infab 0 1", "infab 1 0"]);
+            }
+            for op in ops {
+                o.op(op);
+                // a failed operation leaves both operands unchanged
+                o.op("obs 0");
+                o.op("obs 1");
+            }
+            continue;
+        }
+        // ---- compatible pair / triple
+        let regime = REGIMES[r.below(REGIMES.len() as u64) as usize];
+        let mut pb = pa.clone();
+        pb.track = if r.chance(2, 3) { pa.track } else { !pa.track };
+        if is_num && r.chance(1, 5) {
+            pb.num = *r.pick(&[1u64, 3, 8]);
+        }
+        let mut pc = pa.clone();
+        pc.track = if r.chance(2, 3) { pa.track } else { !pa.track };
+        let ka = subset(&mut r, &u, 2, 3);
+        let kb = second_keys(&mut r, regime, &u, &ka);
+        let kc = subset(&mut r, &u, 1, 2);
+        let (ia, ib, ic) = (items(&mut r, &ka, 5), items(&mut r, &kb, 5), items(&mut r, &kc, 5));
+        o.case(&format!("{} {} num={} scaled={}", ty, regime, pa.num, pa.scaled));
+        o.op(&pa.line(0));
+        o.op(&pb.line(1));
+        o.op(&pc.line(2));
+        emit_add(&mut o, &mut r, 0, &ia);
+        emit_add(&mut o, &mut r, 1, &ib);
+        emit_add(&mut o, &mut r, 2, &ic);
+        // sizes and intersections, both argument orders
+        for op in ["isect 0 1", "isect 1 0", "isize 0 1", "isize 1 0", "cc 0 1 0", "cc 1 0 0", "cc 0 1 1", "isect 0 0", "isize 1 1"] {
+            o.op(op);
+        }
+        // merge: commutativity, idempotence, homomorphism, associativity
+        o.op("copy 3 0");
+        o.op("merge 3 1");
+        o.op("copy 4 1");
+        o.op("merge 4 0");
+        o.op("copy 5 0");
+        o.op("merge 5 0");
+        // sketch of the concatenation, built directly (parameters of the merge result)
+        let mut pd = pa.clone();
+        pd.track = pa.track && pb.track;
+        o.op(&pd.line(6));
+        let mut cat = ia.clone();
+        cat.extend(ib.iter().cloned());
+        o.op(&format!("add 6 {}", show_items(&cat)));
+        o.op("copy 7 3");
+        o.op("merge 7 2"); // (A ∪ B) ∪ C
+        o.op("copy 8 1");
+        o.op("merge 8 2");
+        o.op("copy 9 0");
+        o.op("merge 9 8"); // A ∪ (B ∪ C)
+        // subtraction, add_from
+        o.op("copy 10 0");
+        o.op("rmfrom 10 1");
+        o.op("copy 11 0");
+        o.op(&format!("rmmany 11 {}", show_nats(subset(&mut r, &u, 1, 2))));
+        o.op("copy 12 0");
+        o.op("addfrom 12 1");
+        if ty == "vec" {
+            o.op("infab 0 1");
+            o.op("infab 1 0");
+            o.op("copy 13 0");
+            o.op("inflate 13 1");
+            o.op("copy 14 1");
+            o.op("inflate 14 0");
+        }
+        // operands are not modified by any of the above
+        o.op("obs 0");
+        o.op("obs 1");
+        o.op("obs 2");
+        // keep going on a merged sketch: more insertions after a merge
+        if r.chance(1, 3) {
+            let ke = subset(&mut r, &u, 1, 3);
+            let extra = items(&mut r, &ke, 3);
+            emit_add(&mut o, &mut r, 3, &extra);
+            o.op("isize 3 0");
+        }
     }
 }
 
@@ -17,7 +452,13 @@ fn main() {
     let a = args();
     match a.mode.as_str() {
         "gen" => gen(&a),
-        "exec" => exec_loop(|| (), step),
+        "exec" => exec_loop(
+            || St {
+                tree: false,
+                regs: BTreeMap::new(),
+            },
+            step,
+        ),
         _ => panic!("mode"),
     }
 }
